@@ -653,10 +653,11 @@ Proof.
               rewrite cellv_upd_other.
               ** rewrite Cnew by (apply (Hrange q c2 Rq)). apply nthq_vzero.
               ** intros ->. apply phase_eqb_neq in Eq. apply Eq. eapply Hinj; eauto.
-        -- intros p _. rewrite (fl_single s p0 c p j Ps). unfold pset_now; simpl.
+        -- intros p _. pose proof (fl_single s p0 c p j Ps) as Fp. unfold pset_now; simpl.
            destruct (phase_eqb p p0) eqn:Ep.
-           ++ apply phase_eqb_eq in Ep. subst p. unfold lands. rewrite Rq0. reflexivity.
-           ++ destruct (lands (rset r) p q); reflexivity.
+           ++ apply phase_eqb_eq in Ep. subst p. unfold lands. rewrite Rq0.
+              destruct (phase_eqb q q0); [exact Fp|reflexivity].
+           ++ destruct (lands (rset r) p q); [exact Fp|reflexivity].
     + inversion H as [Hs']; subst s'; clear H.
       assert (Zs : forall p j, fl s p j == 0).
       { intros p j. rewrite (fl_single s p0 c p j Ps). destruct (phase_eqb p p0); [|reflexivity].
@@ -672,18 +673,18 @@ Proof.
     simpl in Hp. destruct Hp as [Hr0 Hinj0].
     destruct (pset_eqb t (rset r0)) eqn:Eqb.
     + inversion H as [Hs']; subst s'; clear H. pose proof (pset_eqb_true _ _ Eqb) as Et.
-      assert (PN : forall x, pset_now s' x = t x) by (intros x; unfold pset_now; rewrite Ps; symmetry; apply Et).
+      assert (PN : forall x, pset_now s x = t x) by (intros x; unfold pset_now; rewrite Ps; symmetry; apply Et).
       split; [repeat split; auto; rewrite Ps; split; auto|]. split; [repeat split|]. split; [exact PN|].
-      assert (Cv : covers s' t).
-      { intros p j Rn. rewrite (fl_multi s' r0 p j Ps). unfold rowv.
+      assert (Cv : covers s t).
+      { intros p j Rn. rewrite (fl_multi s r0 p j Ps). unfold rowv.
         destruct (r0 p) eqn:Rp; [|reflexivity].
         rewrite (resolve_self t p) in Rn; [discriminate|]. rewrite Et. unfold rset. rewrite Rp. reflexivity. }
       split; [exact Cv|].
       intros q j. symmetry.
-      rewrite (psum_ext all_phases _ (fun p => if lands t p q then fl s' p j else 0))
+      rewrite (psum_ext all_phases _ (fun p => if lands t p q then fl s p j else 0))
         by (intros p _; rewrite (lands_ext _ t p q PN); reflexivity).
-      apply (psum_lands_id t (fun p => fl s' p j) q). intros p Hne.
-      rewrite (fl_multi s' r0 p j Ps). unfold rowv. destruct (r0 p) eqn:Rp; [|reflexivity].
+      apply (psum_lands_id t (fun p => fl s p j) q). intros p Hne.
+      rewrite (fl_multi s r0 p j Ps). unfold rowv. destruct (r0 p) eqn:Rp; [|reflexivity].
       exfalso. apply Hne. apply resolve_self. rewrite Et. unfold rset. rewrite Rp. reflexivity.
     + destruct (blank (nch s) t (heap s)) as [h1 r] eqn:B.
       destruct (blank_spec _ _ _ _ _ B) as (E & Hset & Hrange & Hinj).
@@ -712,4 +713,872 @@ Proof.
       * intros q j. match goal with |- fl ?S _ _ == _ => rewrite (fl_multi S r q j eq_refl) end. simpl. rewrite A4, Z1.
         rewrite Qplus_0_l. apply psum_ext. intros p _. unfold pset_now; simpl.
         destruct (lands (rset r) p q); [apply Old|reflexivity].
+Qed.
+
+(* ================= every conversion keeps totals, T, P and well-formedness ================= *)
+Definition TP_same (s s' : st) : Prop := T_of s' = T_of s /\ P_of s' = P_of s.
+Lemma frame_TP s s' : frame s s' -> TP_same s s'.
+Proof. intros (_ & A & B & _). unfold TP_same, T_of, P_of. rewrite A, B. split; reflexivity. Qed.
+
+Definition conv_ok (s s' : st) : Prop :=
+  wf s' /\ frame s s' /\ (forall j, total s' j == total s j) /\ (covers s (pset_now s') -> placed s s').
+
+Lemma placed_refl s : placed s s.
+Proof.
+  intros q j. symmetry. apply (psum_lands_id (pset_now s) (fun p => fl s p j) q).
+  intros p Hne. unfold pset_now in Hne. destruct (par s) as [q0 c|r] eqn:Ps.
+  - rewrite (fl_single s q0 c p j Ps). destruct (phase_eqb p q0) eqn:E; [|reflexivity].
+    exfalso. apply Hne. apply resolve_self. exact E.
+  - rewrite (fl_multi s r p j Ps). unfold rowv. destruct (r p) eqn:Rp; [|reflexivity].
+    exfalso. apply Hne. apply resolve_self. unfold rset. rewrite Rp. reflexivity.
+Qed.
+
+Lemma conv_refl s : wf s -> conv_ok s s.
+Proof.
+  intros W. split; [exact W|]. split; [repeat split|]. split; [intros; reflexivity|].
+  intros _. apply placed_refl.
+Qed.
+
+(* an operation that leaves heap and representation alone *)
+Lemma same_flow_conv s s' :
+  wf s' -> frame s s' -> heap s' = heap s -> par s' = par s -> conv_ok s s'.
+Proof.
+  intros W' F Eh Ep. pose proof F as (En & _).
+  assert (Efl : forall p j, fl s' p j = fl s p j).
+  { intros p j. unfold fl, flow. rewrite Ep, Eh, En. reflexivity. }
+  split; [exact W'|]. split; [exact F|]. split.
+  - intros j. rewrite !total_psum. apply psum_ext. intros p _. rewrite Efl. reflexivity.
+  - intros _ q j. rewrite Efl. rewrite (placed_refl s q j).
+    assert (PN : forall x, pset_now s x = pset_now s' x) by (intros x; unfold pset_now; rewrite Ep; reflexivity).
+    apply psum_ext. intros p _. rewrite (lands_ext _ _ p q PN). reflexivity.
+Qed.
+
+Lemma to_single_conv s p s' : wf s -> to_single s p = Ok s' -> conv_ok s s'.
+Proof.
+  intros W H. destruct (to_single_spec s p s' W H) as (W' & F & (c & Ps') & Ht).
+  split; [exact W'|]. split; [exact F|]. split.
+  - intros j. rewrite (total_single s' p c j Ps').
+    pose proof (fl_single s' p c p j Ps') as X. rewrite phase_eqb_refl in X. rewrite <- X. apply Ht.
+  - intros Cv. eapply single_placed; eauto.
+Qed.
+
+Lemma set_phases_conv s t bad s' : wf s -> set_phases s t bad = Ok s' -> conv_ok s s'.
+Proof.
+  intros W H. destruct bad.
+  - unfold set_phases in H. destruct (par s); destruct (Nat.eqb _ 1); try discriminate.
+    destruct (Nat.eqb _ 0); discriminate.
+  - destruct (Nat.eq_dec (pset_card t) 1) as [E|E].
+    + unfold set_phases in H. rewrite Nat.add_0_r, E in H. simpl in H.
+      destruct (par s); eapply to_single_conv; eauto.
+    + destruct (set_phases_multi_target s t s' W H E) as (W' & F & PN & Cv & Pl).
+      split; [exact W'|]. split; [exact F|]. split; [|intros _; exact Pl].
+      apply placed_total; [exact Pl|]. intros p j Rn. apply Cv.
+      rewrite (resolve_ext t (pset_now s') p) by (intros x; symmetry; apply PN). exact Rn.
+Qed.
+
+Lemma set_phase_conv s ls s' : wf s -> set_phase s ls = Ok s' -> conv_ok s s'.
+Proof.
+  intros W H. unfold set_phase in H. destruct (par s) as [p0 c|r] eqn:Ps.
+  - destruct ls as [|q [|? ?]]; try discriminate.
+    apply (to_single_conv s q s' W). unfold to_single. rewrite Ps. exact H.
+  - destruct ls as [|q [|q' l']].
+    + eapply to_single_conv; eauto.
+    + eapply to_single_conv; eauto.
+    + eapply set_phases_conv; eauto.
+Qed.
+
+Definition conversion (o : op) : bool :=
+  match o with
+  | OSetPhases _ _ | OSetPhase _ | OReduce | OAsStream | OAcc _ | OView _ | OSave => true
+  | _ => false
+  end.
+
+Lemma wf_set_lastret s k : wf s -> wf (set_lastret s k).
+Proof. intros W; exact W. Qed.
+
+
+Definition conv_res (s s' : st) : Prop :=
+  wf s' /\ nch s' = nch s /\ TP_same s s' /\ (forall j, total s' j == total s j) /\
+  (covers s (pset_now s') -> placed s s').
+
+Lemma conv_ok_res s s' : conv_ok s s' -> conv_res s s'.
+Proof.
+  intros (W & F & T & Pl). split; [exact W|]. split; [apply F|]. split; [apply frame_TP; exact F|].
+  split; auto.
+Qed.
+
+Lemma same_flow_res s s' :
+  wf s' -> nch s' = nch s -> tcs s' = tcs s -> ptc s' = ptc s -> heap s' = heap s -> par s' = par s ->
+  conv_res s s'.
+Proof.
+  intros W' En Et Ec Eh Ep.
+  assert (Efl : forall p j, fl s' p j = fl s p j).
+  { intros p j. unfold fl, flow. rewrite Ep, Eh, En. reflexivity. }
+  split; [exact W'|]. split; [exact En|]. split; [|split].
+  - unfold TP_same, T_of, P_of. rewrite Et, Ec. split; reflexivity.
+  - intros j. rewrite !total_psum. apply psum_ext. intros p _. rewrite Efl. reflexivity.
+  - intros _ q j. rewrite Efl. rewrite (placed_refl s q j).
+    assert (PN : forall x, pset_now s x = pset_now s' x) by (intros x; unfold pset_now; rewrite Ep; reflexivity).
+    apply psum_ext. intros p _. rewrite (lands_ext _ _ p q PN). reflexivity.
+Qed.
+
+Lemma snapshot_wf s : wf s -> sdwf (nch s) (snapshot s).
+Proof.
+  intros (Hh & Hp & _). unfold snapshot. destruct (tc_get (tcs s) (ptc s)) as [T P].
+  destruct (par s) as [p c|r]; intros q v; simpl.
+  - destruct (phase_eqb q p); [|discriminate]. intros E; inversion E; subst. apply Hh. exact Hp.
+  - destruct (r q) as [c|] eqn:Rq; [|discriminate]. intros E; inversion E; subst.
+    apply Hh. destruct Hp as [Hr _]. eapply Hr; eauto.
+Qed.
+
+Lemma step_conv s o s' :
+  conversion o = true -> wf s -> step s o = Ok s' -> conv_res s s'.
+Proof.
+  intros C W H. destruct o; simpl in C; try discriminate; simpl in H.
+  - apply conv_ok_res. eapply set_phases_conv; eauto.
+  - apply conv_ok_res. eapply set_phase_conv; eauto.
+  - unfold reduce_phases in H. destruct (par s).
+    + inversion H; subst. apply conv_ok_res. apply conv_refl. exact W.
+    + apply conv_ok_res. eapply set_phase_conv; eauto.
+  - unfold as_stream in H. destruct (par s) as [|r].
+    + inversion H; subst. apply conv_ok_res. apply conv_refl. exact W.
+    + destruct (phase_string (heap s) r) as [|q [|q' l']].
+      * destruct (pset_list (rset r)); [discriminate|]. apply conv_ok_res. eapply set_phase_conv; eauto.
+      * apply conv_ok_res. eapply set_phase_conv; eauto.
+      * discriminate.
+  - unfold accessor in H. destruct (acc_pair a) as [x y]. destruct (par s) as [p c|r].
+    + apply conv_ok_res. eapply set_phases_conv; eauto.
+    + destruct (rset r x && rset r y).
+      * inversion H; subst. apply conv_ok_res. apply conv_refl. exact W.
+      * apply conv_ok_res. eapply set_phases_conv; eauto.
+  - unfold get_view in H. destruct (par s) as [p c|r] eqn:Ps.
+    + destruct (lower_eqb l p); [|discriminate]. inversion H; subst.
+      apply same_flow_res; auto.
+    + destruct (find_cached (views s) l 0).
+      * inversion H; subst. apply same_flow_res; auto.
+      * destruct (rlookup r l); [|discriminate]. inversion H; subst. apply same_flow_res; auto.
+  - inversion H; subst. apply same_flow_res; auto.
+    pose proof (snapshot_wf s W) as SW. destruct W as (A & B & D & E).
+    split; [exact A|]. split; [exact B|]. split; [exact D|]. simpl.
+    apply Forall_app. split; [exact E|]. constructor; [exact SW|constructor].
+Qed.
+
+(* ================= accessors move nothing ================= *)
+Lemma card_two t x y : t x = true -> t y = true -> x <> y -> pset_card t <> 1%nat.
+Proof.
+  unfold pset_card, pset_list, all_phases. intros Hx Hy Hne. simpl.
+  destruct x, y; try congruence;
+    destruct (t PL), (t PS), (t Pg), (t Pl), (t Ps); simpl; try discriminate; congruence.
+Qed.
+
+Lemma superset_keeps s t s' :
+  wf s -> set_phases s t false = Ok s' -> pset_card t <> 1%nat ->
+  (forall p, pset_now s p = true -> t p = true) ->
+  covers s (pset_now s') /\ forall q j, fl s' q j == fl s q j.
+Proof.
+  intros W H Hc Sup. destruct (set_phases_multi_target s t s' W H Hc) as (_ & _ & PN & Cv & Pl).
+  assert (Z : forall p j, resolve t p <> Some p -> fl s p j == 0).
+  { intros p j Hne. destruct (pset_now s p) eqn:Np.
+    - exfalso. apply Hne. apply resolve_self. apply Sup. exact Np.
+    - unfold pset_now in Np. destruct (par s) as [q0 c|r] eqn:Ps.
+      + rewrite (fl_single s q0 c p j Ps). rewrite Np. reflexivity.
+      + rewrite (fl_multi s r p j Ps). unfold rowv. unfold rset in Np. destruct (r p); [discriminate|reflexivity]. }
+  split.
+  - intros p j Rn. apply Cv. rewrite (resolve_ext t (pset_now s') p) by (intros x; symmetry; apply PN). exact Rn.
+  - intros q j. rewrite (Pl q j).
+    rewrite (psum_ext all_phases _ (fun p => if lands t p q then fl s p j else 0))
+      by (intros p _; rewrite (lands_ext _ t p q PN); reflexivity).
+    apply (psum_lands_id t (fun p => fl s p j) q). intros p Hne. apply Z. exact Hne.
+Qed.
+
+Lemma pset_of_in ls p : pset_of ls p = true <-> In p ls.
+Proof.
+  unfold pset_of. rewrite existsb_exists. split.
+  - intros (x & Hx & E). apply phase_eqb_eq in E. subst. exact Hx.
+  - intros H. exists p. split; [exact H|apply phase_eqb_refl].
+Qed.
+
+Lemma accessor_keeps s a s' :
+  wf s -> accessor s a = Ok s' ->
+  covers s (pset_now s') /\ (forall q j, fl s' q j == fl s q j) /\
+  (forall p, pset_now s p = true -> pset_now s' p = true).
+Proof.
+  intros W H. unfold accessor in H. destruct (acc_pair a) as [x y] eqn:Ea.
+  assert (Hxy : x <> y) by (destruct a; inversion Ea; subst; discriminate).
+  destruct (par s) as [p0 c|r] eqn:Ps.
+  - assert (Hc : pset_card (pset_of [p0; x; y]) <> 1%nat).
+    { apply (card_two _ x y); auto; apply pset_of_in; simpl; auto. }
+    assert (Sup : forall p, pset_now s p = true -> pset_of [p0; x; y] p = true).
+    { intros p Hp. unfold pset_now in Hp. rewrite Ps in Hp. apply phase_eqb_eq in Hp. subst.
+      apply pset_of_in. simpl; auto. }
+    destruct (superset_keeps s _ s' W H Hc Sup) as [A B]. split; [exact A|]. split; [exact B|].
+    destruct (set_phases_multi_target s _ s' W H Hc) as (_ & _ & PN & _).
+    intros p Hp. rewrite PN. apply Sup. exact Hp.
+  - destruct (rset r x && rset r y) eqn:Both.
+    + inversion H; subst. split; [|split; auto; intros; reflexivity].
+      intros p j Rn. unfold pset_now in Rn. rewrite Ps in Rn.
+      rewrite (fl_multi s' r p j Ps). unfold rowv. destruct (r p) eqn:Rp; [|reflexivity].
+      rewrite (resolve_self (rset r) p) in Rn; [discriminate|]. unfold rset. rewrite Rp. reflexivity.
+    + assert (Hc : pset_card (pset_union (rset r) (pset_of [x; y])) <> 1%nat).
+      { apply (card_two _ x y); auto; unfold pset_union; apply orb_true_iff; right; apply pset_of_in; simpl; auto. }
+      assert (Sup : forall p, pset_now s p = true -> pset_union (rset r) (pset_of [x; y]) p = true).
+      { intros p Hp. unfold pset_now in Hp. rewrite Ps in Hp. unfold pset_union. rewrite Hp. reflexivity. }
+      destruct (superset_keeps s _ s' W H Hc Sup) as [A B]. split; [exact A|]. split; [exact B|].
+      destruct (set_phases_multi_target s _ s' W H Hc) as (_ & _ & PN & _).
+      intros p Hp. rewrite PN. apply Sup. exact Hp.
+Qed.
+
+(* ================= the remaining operations keep states well-formed ================= *)
+Lemma write_cell_hwf n h c j x : hwf n h -> hwf n (write_cell h c j x).
+Proof.
+  intros Hh. unfold write_cell. destruct (Nat.lt_ge_cases c (length h)) as [L|L].
+  - apply hwf_upd; auto. rewrite upd_length. apply Hh. exact L.
+  - intros c' Hc'. rewrite upd_length in Hc'. rewrite cellv_upd_other by lia. apply Hh. exact Hc'.
+Qed.
+Lemma write_cell_length h c j x : length (write_cell h c j x) = length h.
+Proof. apply upd_length. Qed.
+
+Lemma par_wf_len h h' p : par_wf h p -> length h' = length h -> par_wf h' p.
+Proof.
+  intros H E. destruct p as [q c|r]; simpl in *; [lia|]. apply (rwf_len h); auto. lia.
+Qed.
+
+Lemma heap_write_wf s h :
+  wf s -> hwf (nch s) h -> length h = length (heap s) -> wf (set_heap s h).
+Proof.
+  intros (A & B & C & D) Hh E. split; [exact Hh|]. split; [eapply par_wf_len; eauto|]. split; auto.
+Qed.
+Lemma tcs_write_wf s k v : wf s -> wf (set_tcs s (upd (tcs s) k v)).
+Proof. intros (A & B & C & D). repeat split; simpl; auto; try apply B. rewrite upd_length. exact C. Qed.
+
+Lemma upd_oor {A} (l : list A) c v : (length l <= c)%nat -> upd l c v = l.
+Proof. revert c. induction l as [|a l IH]; intros [|c] H; simpl in *; auto; try lia. f_equal. apply IH. lia. Qed.
+
+Lemma empty_all_fold_spec n (r : rmap) : forall ps h,
+  hwf n h ->
+  let h' := fold_left (fun h p => match r p with Some c => upd h c (vzero n) | None => h end) ps h in
+  length h' = length h /\ hwf n h' /\
+  (forall p c, In p ps -> r p = Some c -> (c < length h)%nat -> cellv h' c = vzero n) /\
+  (forall c, (forall p, In p ps -> r p <> Some c) -> cellv h' c = cellv h c) /\
+  (forall c, cellv h' c = cellv h c \/ cellv h' c = vzero n).
+Proof.
+  induction ps as [|a ps IH]; intros h Hh; simpl.
+  - repeat split; auto. intros p c [].
+  - destruct (r a) as [ca|] eqn:Ra.
+    + assert (Hh' : hwf n (upd h ca (vzero n))) by (apply hwf_upd; auto; apply vzero_length).
+      destruct (IH _ Hh') as (A & B & C & D & E). rewrite upd_length in A.
+      split; [exact A|]. split; [exact B|]. split; [|split].
+      * intros p c [->|Hp] Rp Lc.
+        -- rewrite Ra in Rp. inversion Rp; subst.
+           destruct (E c) as [X|X]; [|exact X]. rewrite X. apply cellv_upd_same. exact Lc.
+        -- apply (C p c Hp Rp). rewrite upd_length. exact Lc.
+      * intros c Hc. rewrite D by (intros p Hp; apply Hc; right; exact Hp).
+        apply cellv_upd_other. intros ->. apply (Hc a (or_introl eq_refl)). exact Ra.
+      * intros c. destruct (E c) as [X|X]; [|right; exact X].
+        destruct (Nat.eq_dec ca c) as [->|Hne].
+        -- destruct (Nat.lt_ge_cases c (length h)) as [L|L].
+           ++ right. rewrite X. apply cellv_upd_same. exact L.
+           ++ left. rewrite X. rewrite upd_oor by exact L. reflexivity.
+        -- left. rewrite X. apply cellv_upd_other. exact Hne.
+    + destruct (IH _ Hh) as (A & B & C & D & E). split; [exact A|]. split; [exact B|]. split; [|split].
+      * intros p c [->|Hp] Rp Lc; [congruence|]. apply (C p c Hp Rp Lc).
+      * intros c Hc. apply D. intros p Hp. apply Hc. right; exact Hp.
+      * exact E.
+Qed.
+
+Lemma empty_all_spec s :
+  wf s -> wf (empty_all s) /\ frame s (empty_all s) /\ par (empty_all s) = par s /\
+  views (empty_all s) = views s /\
+  (forall p c, (match par s with Single _ c0 => c = c0 | Multi r => r p = Some c end) ->
+               cellv (heap (empty_all s)) c = vzero (nch s)).
+Proof.
+  intros W. pose proof W as (Hh & Hp & Htc & Hsv). unfold empty_all. destruct (par s) as [q c|r] eqn:Ps.
+  - split; [apply heap_write_wf; auto; [apply hwf_upd; auto; apply vzero_length|apply upd_length]|].
+    split; [repeat split|]. split; [simpl; exact Ps|]. split; [reflexivity|].
+    intros p c' ->. simpl. apply cellv_upd_same. exact Hp.
+  - destruct (empty_all_fold_spec (nch s) r all_phases (heap s) Hh) as (A & B & C & D & E).
+    split; [apply heap_write_wf; auto|]. split; [repeat split|]. split; [simpl; exact Ps|].
+    split; [reflexivity|]. intros p c Rp. simpl. apply (C p c (all_phases_in p) Rp).
+    destruct Hp as [Hr _]. eapply Hr; eauto.
+Qed.
+
+Lemma copy_rows_spec (r : rmap) (d : phase -> option vec) n : forall ps h,
+  NoDup ps -> hwf n h -> rwf h r -> (forall p v, d p = Some v -> length v = n) ->
+  let h' := fold_left (fun h p => match r p, d p with Some c, Some v => upd h c v | _, _ => h end) ps h in
+  length h' = length h /\ hwf n h' /\
+  (forall p c v, In p ps -> r p = Some c -> d p = Some v -> cellv h' c = v) /\
+  (forall c, (forall p, In p ps -> r p <> Some c) -> cellv h' c = cellv h c).
+Proof.
+  induction ps as [|a ps IH]; intros h ND Hh Hr Hd; simpl.
+  - repeat split; auto. intros p c v [].
+  - inversion ND as [|? ? Hna ND']; subst.
+    destruct (r a) as [ca|] eqn:Ra; [destruct (d a) as [va|] eqn:Da|].
+    + assert (Hh' : hwf n (upd h ca va)) by (apply hwf_upd; auto; eapply Hd; eauto).
+      assert (Hr' : rwf (upd h ca va) r) by (apply (rwf_len h); auto; rewrite upd_length; lia).
+      destruct (IH _ ND' Hh' Hr' Hd) as (A & B & C & D). rewrite upd_length in A.
+      split; [exact A|]. split; [exact B|]. split.
+      * intros p c v [->|Hp] Rp Dp.
+        -- rewrite Ra in Rp. rewrite Da in Dp. inversion Rp; inversion Dp; subst.
+           rewrite D.
+           ++ apply cellv_upd_same. destruct Hr as [Hr _]. eapply Hr; eauto.
+           ++ intros p' Hp' X. destruct Hr as [_ Hinj]. assert (p' = p) by (eapply Hinj; eauto). subst. contradiction.
+        -- eapply C; eauto.
+      * intros c Hc. rewrite D by (intros p Hp; apply Hc; right; exact Hp).
+        apply cellv_upd_other. intros ->. apply (Hc a (or_introl eq_refl)). exact Ra.
+    + destruct (IH _ ND' Hh Hr Hd) as (A & B & C & D). split; [exact A|]. split; [exact B|]. split.
+      * intros p c v [->|Hp] Rp Dp; [congruence|]. eapply C; eauto.
+      * intros c Hc. apply D. intros p Hp. apply Hc. right; exact Hp.
+    + destruct (IH _ ND' Hh Hr Hd) as (A & B & C & D). split; [exact A|]. split; [exact B|]. split.
+      * intros p c v [->|Hp] Rp Dp; [congruence|]. eapply C; eauto.
+      * intros c Hc. apply D. intros p Hp. apply Hc. right; exact Hp.
+Qed.
+
+(* a snapshot as get_data makes them: a Stream's has exactly its one phase *)
+Definition sd_proper (d : sdata) : Prop :=
+  match sd_single d with
+  | Some q => forall p, isSome (sd_rows d p) = phase_eqb p q
+  | None => pset_card (fun p => isSome (sd_rows d p)) <> 1%nat
+  end.
+
+Lemma card_one_hd t q : (forall p, t p = phase_eqb p q) -> pset_card t = 1%nat /\ hd Pl (pset_list t) = q.
+Proof.
+  intros H. unfold pset_card, pset_list, all_phases. simpl. rewrite !H. destruct q; simpl; auto.
+Qed.
+
+Lemma tc_get_upd t k v : (k < length t)%nat -> tc_get (upd t k v) k = v.
+Proof.
+  unfold tc_get. revert k. induction t as [|a t IH]; intros [|k] H; simpl in *; try lia; auto. apply IH. lia.
+Qed.
+
+(* what set_data leaves behind, whenever it returns *)
+Lemma restore_exact s d s' :
+  wf s -> sdwf (nch s) d -> sd_proper d -> restore s d = Ok s' ->
+  wf s' /\ nch s' = nch s /\ saved s' = saved s /\
+  T_of s' = sd_T d /\ P_of s' = sd_P d /\
+  is_multi s' = negb (isSome (sd_single d)) /\
+  (forall p, pset_now s' p = isSome (sd_rows d p)) /\
+  (forall p, flow s' p = match sd_rows d p with Some v => v | None => vzero (nch s) end).
+Proof.
+  intros W Hd Hprop H. unfold restore in H.
+  destruct (empty_all_spec s W) as (W0 & F0 & P0 & _ & _).
+  set (t := fun p => isSome (sd_rows d p)) in *.
+  destruct (set_phases (empty_all s) t false) as [s1|e] eqn:S1; [|discriminate]. simpl in H.
+  destruct (set_phases_conv _ _ _ _ W0 S1) as (W1 & F1 & _ & _).
+  destruct F0 as (n0 & t0 & c0 & sv0 & _). destruct F1 as (n1 & t1 & c1 & sv1 & _).
+  pose proof W1 as (Hh1 & Hp1 & Htc1 & Hsv1).
+  unfold sd_proper in Hprop. destruct (sd_single d) as [q|] eqn:Sd.
+  - (* snapshot of a Stream *)
+    destruct (card_one_hd t q Hprop) as [Card Hd1].
+    assert (P1 : exists c, par s1 = Single q c).
+    { unfold set_phases in S1. rewrite Nat.add_0_r, Card in S1. simpl in S1. rewrite Hd1 in S1.
+      destruct (par (empty_all s)); destruct (to_single_spec _ _ _ W0 S1) as (_ & _ & X & _); exact X. }
+    destruct P1 as (c & P1). rewrite P1 in H, Hp1. simpl in Hp1.
+    destruct (sd_rows d q) as [v|] eqn:Rq; [|discriminate]. simpl in H. inversion H; subst s'. clear H.
+    assert (Lv : length v = nch s) by (eapply Hd; eauto).
+    split.
+    { split; simpl; [apply hwf_upd; auto; congruence|]. split; [rewrite upd_length; exact Hp1|].
+      split; [rewrite upd_length; exact Htc1|exact Hsv1]. }
+    split; [simpl; congruence|]. split; [simpl; congruence|].
+    unfold T_of, P_of; simpl. rewrite tc_get_upd by exact Htc1. simpl.
+    split; [reflexivity|]. split; [reflexivity|]. split; [reflexivity|]. split.
+    + intros p. unfold pset_now; simpl. symmetry. apply Hprop.
+    + intros p. unfold flow; simpl. specialize (Hprop p). unfold t in Hprop.
+      destruct (phase_eqb p q) eqn:E.
+      * apply phase_eqb_eq in E. subst p. rewrite Rq. apply cellv_upd_same. exact Hp1.
+      * destruct (sd_rows d p); [discriminate|]. congruence.
+  - (* snapshot of a MultiStream *)
+    destruct (set_phases_multi_target _ _ _ W0 S1 Hprop) as (_ & _ & PN & _).
+    destruct (par s1) as [q c|r] eqn:P1; [discriminate|]. simpl in H. inversion H; subst s'. clear H.
+    simpl in Hp1.
+    assert (Hd' : forall p v, sd_rows d p = Some v -> length v = nch s1) by (intros p v X; rewrite n1, n0; eapply Hd; eauto).
+    destruct (copy_rows_spec r (sd_rows d) (nch s1) all_phases (heap s1) all_phases_nodup Hh1 Hp1 Hd')
+      as (A & B & C & D).
+    fold (copy_rows (heap s1) r (sd_rows d)) in A, B, C, D.
+    split.
+    { split; simpl; [exact B|]. split; [rewrite P1; apply (rwf_len (heap s1)); auto; lia|].
+      split; [rewrite upd_length; exact Htc1|exact Hsv1]. }
+    split; [simpl; congruence|]. split; [simpl; congruence|].
+    unfold T_of, P_of; simpl. rewrite tc_get_upd by exact Htc1. simpl.
+    split; [reflexivity|]. split; [reflexivity|]. split; [unfold is_multi; simpl; rewrite P1; reflexivity|]. split.
+    + intros p. unfold pset_now; simpl. rewrite P1. specialize (PN p). unfold pset_now in PN. rewrite P1 in PN. exact PN.
+    + intros p. unfold flow; simpl. rewrite P1. specialize (PN p). unfold pset_now in PN. rewrite P1 in PN.
+      unfold rset, t in PN. destruct (r p) as [c|] eqn:Rp; destruct (sd_rows d p) as [v|] eqn:Dp; try discriminate.
+      * eapply C; eauto. apply all_phases_in.
+      * congruence.
+Qed.
+
+(* ================= invariants of every history ================= *)
+(* MultiStreams met in histories never have exactly one phase (phases= with one label gives a Stream) *)
+Definition proper_state (s : st) : Prop :=
+  match par s with Multi r => pset_card (rset r) <> 1%nat | Single _ _ => True end.
+Definition good (s : st) : Prop := wf s /\ proper_state s /\ Forall sd_proper (saved s).
+
+Lemma pset_card_ext a b : (forall p, a p = b p) -> pset_card a = pset_card b.
+Proof. intros H. unfold pset_card, pset_list, all_phases. simpl. rewrite !H. reflexivity. Qed.
+
+Lemma to_single_proper s p s' : to_single s p = Ok s' -> proper_state s'.
+Proof.
+  unfold to_single. destruct (par s); [intros H; inversion H; subst; exact I|].
+  destruct (Nat.eqb _ 0); [discriminate|]. intros H; inversion H; subst. exact I.
+Qed.
+
+Lemma set_phases_proper s t bad s' : wf s -> proper_state s -> set_phases s t bad = Ok s' -> proper_state s'.
+Proof.
+  intros W Pr H. destruct bad.
+  - unfold set_phases in H. destruct (par s); destruct (Nat.eqb _ 1); try discriminate.
+    destruct (Nat.eqb _ 0); discriminate.
+  - destruct (Nat.eq_dec (pset_card t) 1) as [E|E].
+    + unfold set_phases in H. rewrite Nat.add_0_r, E in H. simpl in H.
+      destruct (par s); eapply to_single_proper; eauto.
+    + destruct (set_phases_multi_target s t s' W H E) as (_ & _ & PN & _).
+      unfold proper_state. destruct (par s') as [|r] eqn:Ps'; [exact I|].
+      rewrite (pset_card_ext (rset r) t); [exact E|]. intros p. specialize (PN p).
+      unfold pset_now in PN. rewrite Ps' in PN. exact PN.
+Qed.
+
+Lemma set_phase_proper s ls s' : wf s -> proper_state s -> set_phase s ls = Ok s' -> proper_state s'.
+Proof.
+  intros W Pr H. unfold set_phase in H. destruct (par s) as [p0 c|r] eqn:Ps.
+  - destruct ls as [|q [|? ?]]; try discriminate. inversion H; subst. exact I.
+  - destruct ls as [|q [|q' l']]; [eapply to_single_proper; eauto|eapply to_single_proper; eauto|].
+    eapply set_phases_proper; eauto.
+Qed.
+
+Lemma snapshot_proper s : proper_state s -> sd_proper (snapshot s).
+Proof.
+  unfold proper_state, snapshot, sd_proper. destruct (tc_get (tcs s) (ptc s)) as [T P].
+  destruct (par s) as [q c|r]; simpl.
+  - intros _ p. destruct (phase_eqb p q); reflexivity.
+  - intros H. rewrite (pset_card_ext _ (rset r)); [exact H|]. intros p. unfold rset. destruct (r p); reflexivity.
+Qed.
+
+Lemma same_par_proper s s' : par s' = par s -> proper_state s -> proper_state s'.
+Proof. unfold proper_state. intros ->. auto. Qed.
+
+Lemma step_good s o s' :
+  good s -> step s o = Ok s' ->
+  good s' /\ nch s' = nch s /\ exists l, saved s' = saved s ++ l.
+Proof.
+  intros (W & Pr & Sp) H.
+  assert (ConvCase : conv_ok s s' -> proper_state s' -> good s' /\ nch s' = nch s /\ exists l, saved s' = saved s ++ l).
+  { intros (W' & (En & _ & _ & Es & _) & _) Pr'. split; [split; [exact W'|split; [exact Pr'|rewrite Es; exact Sp]]|].
+    split; [exact En|]. exists []. rewrite app_nil_r. exact Es. }
+  assert (Same : wf s' -> par s' = par s -> nch s' = nch s -> saved s' = saved s ->
+                 good s' /\ nch s' = nch s /\ exists l, saved s' = saved s ++ l).
+  { intros W' Ep En Es. split; [split; [exact W'|split; [eapply same_par_proper; eauto|rewrite Es; exact Sp]]|].
+    split; [exact En|]. exists []. rewrite app_nil_r. exact Es. }
+  destruct o; simpl in H.
+  - apply ConvCase; [eapply set_phases_conv; eauto|eapply set_phases_proper; eauto].
+  - apply ConvCase; [eapply set_phase_conv; eauto|eapply set_phase_proper; eauto].
+  - unfold reduce_phases in H. destruct (par s) eqn:Ps.
+    + inversion H; subst. apply Same; auto.
+    + apply ConvCase; [eapply set_phase_conv; eauto|eapply set_phase_proper; eauto].
+  - unfold as_stream in H. destruct (par s) as [|r] eqn:Ps.
+    + inversion H; subst. apply Same; auto.
+    + destruct (phase_string (heap s) r) as [|q [|q' l']]; [|apply ConvCase; [eapply set_phase_conv; eauto|eapply set_phase_proper; eauto]|discriminate].
+      destruct (pset_list (rset r)); [discriminate|].
+      apply ConvCase; [eapply set_phase_conv; eauto|eapply set_phase_proper; eauto].
+  - unfold accessor in H. destruct (acc_pair a) as [x y]. destruct (par s) as [p c|r] eqn:Ps.
+    + apply ConvCase; [eapply set_phases_conv; eauto|eapply set_phases_proper; eauto].
+    + destruct (rset r x && rset r y).
+      * inversion H; subst. apply Same; auto.
+      * apply ConvCase; [eapply set_phases_conv; eauto|eapply set_phases_proper; eauto].
+  - unfold get_view in H. destruct (par s) as [p c|r] eqn:Ps.
+    + destruct (lower_eqb l p); [|discriminate]. inversion H; subst. apply Same; auto.
+    + destruct (find_cached (views s) l 0); [inversion H; subst; apply Same; auto|].
+      destruct (rlookup r l); [|discriminate]. inversion H; subst. apply Same; auto.
+  - unfold write_view in H. destruct (nth_error (views s) i); [|discriminate]. inversion H; subst.
+    apply Same; auto. apply heap_write_wf; auto; [apply write_cell_hwf; apply W|apply write_cell_length].
+  - unfold write_parent in H. destruct (par s) as [p c|r] eqn:Ps.
+    + inversion H; subst. apply Same; auto.
+      apply heap_write_wf; auto; [apply write_cell_hwf; apply W|apply write_cell_length].
+    + destruct (rlookup r l); [|discriminate]. inversion H; subst. apply Same; auto.
+      apply heap_write_wf; auto; [apply write_cell_hwf; apply W|apply write_cell_length].
+  - inversion H; subst. apply Same; auto. apply tcs_write_wf; exact W.
+  - inversion H; subst. apply Same; auto. apply tcs_write_wf; exact W.
+  - destruct (nth_error (views s) i); [|discriminate]. inversion H; subst. apply Same; auto. apply tcs_write_wf; exact W.
+  - destruct (nth_error (views s) i); [|discriminate]. inversion H; subst. apply Same; auto. apply tcs_write_wf; exact W.
+  - destruct (nth_error (views s) i) as [v|]; [|discriminate].
+    destruct (phase_eqb (vlabel v) l); [|discriminate]. inversion H; subst. apply Same; auto.
+  - inversion H; subst. split; [|split; [reflexivity|eexists; reflexivity]].
+    pose proof (snapshot_wf s W) as SW. destruct W as (A & B & D & E).
+    split; [split; [exact A|split; [exact B|split; [exact D|]]]|split; [exact Pr|]]; simpl.
+    + apply Forall_app. split; [exact E|]. constructor; [exact SW|constructor].
+    + apply Forall_app. split; [exact Sp|]. constructor; [apply snapshot_proper; exact Pr|constructor].
+  - destruct (nth_error (saved s) k) as [d|] eqn:Nk; [|discriminate].
+    assert (Hd : sdwf (nch s) d).
+    { destruct W as (_ & _ & _ & E). rewrite Forall_forall in E. apply E. eapply nth_error_In; eauto. }
+    assert (Hp : sd_proper d) by (rewrite Forall_forall in Sp; apply Sp; eapply nth_error_In; eauto).
+    destruct (restore_exact s d s' W Hd Hp H) as (W' & En & Es & _ & _ & Im & PN & _).
+    split; [split; [exact W'|split; [|rewrite Es; exact Sp]]|split; [exact En|exists []; rewrite app_nil_r; exact Es]].
+    unfold proper_state. destruct (par s') as [|r] eqn:Ps'; [exact I|].
+    unfold sd_proper in Hp. unfold is_multi in Im. rewrite Ps' in Im. destruct (sd_single d); [discriminate|].
+    rewrite (pset_card_ext (rset r) (fun p => isSome (sd_rows d p))); [exact Hp|].
+    intros p. specialize (PN p). unfold pset_now in PN. rewrite Ps' in PN. exact PN.
+Qed.
+
+Lemma run_good ops : forall s s',
+  good s -> run s ops = Ok s' -> good s' /\ nch s' = nch s /\ exists l, saved s' = saved s ++ l.
+Proof.
+  induction ops as [|o ops IH]; intros s s' G H; simpl in H.
+  - inversion H; subst. split; [exact G|]. split; [reflexivity|]. exists []. rewrite app_nil_r. reflexivity.
+  - destruct (step s o) as [s1|e] eqn:S1; [|discriminate]. simpl in H.
+    destruct (step_good s o s1 G S1) as (G1 & N1 & (l1 & L1)).
+    destruct (IH s1 s' G1 H) as (G' & N' & (l' & L')).
+    split; [exact G'|]. split; [congruence|]. exists (l1 ++ l'). rewrite L', L1, app_assoc. reflexivity.
+Qed.
+
+(* ================= set_data (get_data s) after arbitrary mutation ================= *)
+Lemma snapshot_fields s :
+  sd_T (snapshot s) = T_of s /\ sd_P (snapshot s) = P_of s /\
+  negb (isSome (sd_single (snapshot s))) = is_multi s /\
+  (forall p, isSome (sd_rows (snapshot s) p) = pset_now s p) /\
+  (forall p, match sd_rows (snapshot s) p with Some v => v | None => vzero (nch s) end = flow s p).
+Proof.
+  unfold snapshot, T_of, P_of, is_multi, pset_now, flow.
+  destruct (tc_get (tcs s) (ptc s)) as [T P]. destruct (par s) as [q c|r]; simpl.
+  - repeat split; auto; intros p; destruct (phase_eqb p q); reflexivity.
+  - repeat split; auto; intros p; unfold rset; destruct (r p); reflexivity.
+Qed.
+
+Lemma data_roundtrip_lemma s0 ops s s' :
+  good s0 ->
+  run (set_saved s0 (saved s0 ++ [snapshot s0])) ops = Ok s ->
+  step s (ORestore (length (saved s0))) = Ok s' ->
+  is_multi s' = is_multi s0 /\ (forall p, pset_now s' p = pset_now s0 p) /\
+  (forall p, flow s' p = flow s0 p) /\ T_of s' = T_of s0 /\ P_of s' = P_of s0.
+Proof.
+  intros G0 R H.
+  assert (S0 : step s0 OSave = Ok (set_saved s0 (saved s0 ++ [snapshot s0]))) by reflexivity.
+  destruct (step_good _ _ _ G0 S0) as (G1 & _ & _).
+  destruct (run_good ops _ _ G1 R) as (G & En & (l & El)). simpl in En, El.
+  simpl in H.
+  assert (Nk : nth_error (saved s) (length (saved s0)) = Some (snapshot s0)).
+  { rewrite El, <- app_assoc. rewrite nth_error_app2 by lia. rewrite Nat.sub_diag. reflexivity. }
+  rewrite Nk in H. destruct G as (W & _ & _). destruct G0 as (W0 & Pr0 & _).
+  assert (Hd : sdwf (nch s) (snapshot s0)) by (rewrite En; apply snapshot_wf; exact W0).
+  destruct (restore_exact s _ s' W Hd (snapshot_proper s0 Pr0) H) as (_ & _ & _ & ET & EP & Im & PN & Fl).
+  destruct (snapshot_fields s0) as (FT & FP & FM & FN & FF).
+  split; [rewrite Im; exact FM|]. split; [intros p; rewrite PN; apply FN|].
+  split; [intros p; rewrite Fl, En; apply FF|]. split; congruence.
+Qed.
+
+(* ================= totals / T / P over whole histories of conversions ================= *)
+Lemma run_conversions ops : forall s s',
+  good s -> Forall (fun o => conversion o = true) ops -> run s ops = Ok s' ->
+  (forall j, total s' j == total s j) /\ T_of s' = T_of s /\ P_of s' = P_of s.
+Proof.
+  induction ops as [|o ops IH]; intros s s' G F H; simpl in H.
+  - inversion H; subst. repeat split; reflexivity.
+  - inversion F as [|? ? Co Fo]; subst.
+    destruct (step s o) as [s1|e] eqn:S1; [|discriminate]. simpl in H.
+    destruct (step_conv s o s1 Co (proj1 G) S1) as (_ & _ & (T1 & P1) & Tot1 & _).
+    destruct (step_good s o s1 G S1) as (G1 & _).
+    destruct (IH s1 s' G1 Fo H) as (Tot & T2 & P2).
+    split; [intros j; rewrite Tot; apply Tot1|]. split; congruence.
+Qed.
+
+(* ================= reads and writes through a live view ================= *)
+Lemma view_reads_parent s i v :
+  live_inv s -> nth_error (views s) i = Some v -> vin v = true ->
+  exists r q, par s = Multi r /\ resolve (rset r) (vlabel v) = Some q /\ r q = Some (vcell v) /\
+              cellv (heap s) (vcell v) = flow s q /\
+              tc_get (tcs s) (vtc v) = (T_of s, P_of s).
+Proof.
+  intros L N Hin. destruct (L v (nth_error_In _ _ N)) as [Etc B].
+  destruct (B Hin) as (r & Ps & Lk). destruct (rlookup_some r _ _ Lk) as (q & Rq & Rc).
+  exists r, q. repeat split; auto.
+  - unfold flow. rewrite Ps, Rc. reflexivity.
+  - rewrite Etc. unfold T_of, P_of. destruct (tc_get (tcs s) (ptc s)); reflexivity.
+Qed.
+
+Lemma write_view_visible s i j x s' v :
+  wf s -> live_inv s -> nth_error (views s) i = Some v -> vin v = true ->
+  step s (OWriteView i j x) = Ok s' ->
+  exists q, resolve (pset_now s) (vlabel v) = Some q /\
+    flow s' q = upd (flow s q) j x /\ (forall p, p <> q -> flow s' p = flow s p) /\
+    live_inv s'.
+Proof.
+  intros W L N Hin H.
+  destruct (view_reads_parent s i v L N Hin) as (r & q & Ps & Rq & Rc & Ec & _).
+  pose proof (step_live _ _ _ L H) as L'.
+  simpl in H. unfold write_view in H. rewrite N in H. inversion H; subst s'. clear H.
+  destruct W as (_ & Hp & _). rewrite Ps in Hp. destruct Hp as [Hr Hinj].
+  exists q. split; [unfold pset_now; rewrite Ps; exact Rq|]. split; [|split; [|exact L']].
+  - unfold flow; simpl. rewrite Ps, Rc. unfold write_cell. apply cellv_upd_same. eapply Hr; eauto.
+  - intros p Hne. unfold flow; simpl. rewrite Ps. destruct (r p) as [c|] eqn:Rp; [|reflexivity].
+    unfold write_cell. apply cellv_upd_other. intros E. apply Hne. subst c. eapply Hinj; eauto.
+Qed.
+
+Lemma write_parent_visible s l j x s' :
+  live_inv s -> step s (OWriteParent l j x) = Ok s' -> is_multi s = true ->
+  exists q, resolve (pset_now s) l = Some q /\ flow s' q = upd (flow s q) j x /\
+    forall v, In v (views s') -> vin v = true -> resolve (pset_now s') (vlabel v) = Some q ->
+              cellv (heap s') (vcell v) = flow s' q.
+Proof.
+  intros L H Im. pose proof (step_live _ _ _ L H) as L'.
+  simpl in H. unfold write_parent in H. unfold is_multi in Im.
+  destruct (par s) as [|r] eqn:Ps; [discriminate|].
+  destruct (rlookup r l) as [c|] eqn:Lk; [|discriminate]. inversion H; subst s'. clear H.
+  destruct (rlookup_some r l c Lk) as (q & Rq & Rc).
+  exists q. split; [unfold pset_now; rewrite Ps; exact Rq|]. split.
+  - unfold flow; simpl. rewrite Ps, Rc. unfold write_cell.
+    destruct (Nat.lt_ge_cases c (length (heap s))) as [Lc|Lc].
+    + apply cellv_upd_same. exact Lc.
+    + rewrite (upd_oor (heap s)) by exact Lc. unfold cellv. rewrite !nth_overflow by (simpl; lia).
+      destruct j; reflexivity.
+  - intros v Hv Hin Rv. destruct (L' v Hv) as [_ B]. destruct (B Hin) as (r' & Ps' & Lk').
+    simpl in Ps'. rewrite Ps in Ps'. inversion Ps'; subst r'.
+    unfold pset_now in Rv. simpl in Rv. rewrite Ps in Rv.
+    unfold rlookup in Lk'. rewrite Rv in Lk'.
+    unfold flow. simpl. rewrite Ps, Lk'. reflexivity.
+Qed.
+
+(* ================= a cached view leaves the cache only for a reason ================= *)
+Definition stays (s s' : st) : Prop :=
+  forall i v, nth_error (views s) i = Some v -> vin v = true ->
+    exists v', nth_error (views s') i = Some v' /\ vlabel v' = vlabel v /\
+      (vin v' = true \/ is_multi s' = false \/ resolve (pset_now s') (vlabel v) = None).
+
+Lemma stays_same s s' : views s' = views s -> stays s s'.
+Proof. intros E i v N Hin. exists v. rewrite E. auto. Qed.
+
+Lemma stays_uncache s s' : views s' = map uncache (views s) -> is_multi s' = false -> stays s s'.
+Proof.
+  intros E Im i v N Hin. exists (uncache v). rewrite E. split; [apply map_nth_error; exact N|]. auto.
+Qed.
+
+Lemma to_single_stays s p s' : to_single s p = Ok s' -> stays s s'.
+Proof.
+  unfold to_single. destruct (par s).
+  - intros H; inversion H; subst. apply stays_same. reflexivity.
+  - destruct (Nat.eqb _ 0); [discriminate|]. intros H; inversion H; subst.
+    apply stays_uncache; reflexivity.
+Qed.
+
+Lemma set_phases_stays s t bad s' : live_inv s -> set_phases s t bad = Ok s' -> stays s s'.
+Proof.
+  unfold set_phases. intros L H. destruct (par s) as [p0 c|r0] eqn:Ps.
+  - (* a Stream has no cached views *)
+    intros i v N Hin. destruct (L v (nth_error_In _ _ N)) as [_ B]. destruct (B Hin) as (r & X & _). congruence.
+  - destruct (Nat.eqb _ 1).
+    + destruct bad; [destruct (Nat.eqb _ 0); discriminate|]. eapply to_single_stays; eauto.
+    + destruct bad; [discriminate|]. destruct (pset_eqb t (rset r0)); [inversion H; subst; apply stays_same; reflexivity|].
+      destruct (blank (nch s) t (heap s)) as [h1 r] eqn:B.
+      destruct (move_rows all_phases r0 h1 r) as [h2|e]; [|discriminate]. simpl in H. inversion H; subst. clear H.
+      intros i v N Hin. exists (rebind r v). simpl. split; [apply map_nth_error; exact N|].
+      unfold rebind. rewrite Hin. destruct (rlookup r (vlabel v)) eqn:Lk; simpl; auto.
+      split; auto. right; right. unfold pset_now; simpl. apply rlookup_none_resolve. exact Lk.
+Qed.
+
+Lemma set_phase_stays s ls s' : live_inv s -> set_phase s ls = Ok s' -> stays s s'.
+Proof.
+  unfold set_phase. intros L H. destruct (par s) as [p0 c|r] eqn:Ps.
+  - destruct ls as [|q [|? ?]]; try discriminate. inversion H; subst. apply stays_same. reflexivity.
+  - destruct ls as [|q [|q' l']]; [eapply to_single_stays; eauto|eapply to_single_stays; eauto|].
+    eapply set_phases_stays; eauto.
+Qed.
+
+Lemma stays_trans_same s s0 s' : views s0 = views s -> stays s0 s' -> stays s s'.
+Proof. intros E H i v N Hin. apply H; auto. rewrite E. exact N. Qed.
+
+Lemma step_stays s o s' : live_inv s -> step s o = Ok s' -> stays s s'.
+Proof.
+  intros L H. destruct o; simpl in H.
+  - eapply set_phases_stays; eauto.
+  - eapply set_phase_stays; eauto.
+  - unfold reduce_phases in H. destruct (par s); [inversion H; subst; apply stays_same; reflexivity|].
+    eapply set_phase_stays; eauto.
+  - unfold as_stream in H. destruct (par s) as [|r]; [inversion H; subst; apply stays_same; reflexivity|].
+    destruct (phase_string (heap s) r) as [|q [|q' l']]; [|eapply set_phase_stays; eauto|discriminate].
+    destruct (pset_list (rset r)); [discriminate|]. eapply set_phase_stays; eauto.
+  - unfold accessor in H. destruct (acc_pair a) as [x y]. destruct (par s) as [p c|r].
+    + eapply set_phases_stays; eauto.
+    + destruct (rset r x && rset r y); [inversion H; subst; apply stays_same; reflexivity|].
+      eapply set_phases_stays; eauto.
+  - unfold get_view in H. destruct (par s) as [p c|r].
+    + destruct (lower_eqb l p); [|discriminate]. inversion H; subst. apply stays_same. reflexivity.
+    + destruct (find_cached (views s) l 0); [inversion H; subst; apply stays_same; reflexivity|].
+      destruct (rlookup r l); [|discriminate]. inversion H; subst.
+      intros i v N Hin. exists v. simpl. split; [|auto].
+      rewrite nth_error_app1; [exact N|]. apply nth_error_Some. congruence.
+  - unfold write_view in H. destruct (nth_error (views s) i); [|discriminate]. inversion H; subst.
+    apply stays_same. reflexivity.
+  - unfold write_parent in H. destruct (par s) as [p c|r].
+    + inversion H; subst. apply stays_same. reflexivity.
+    + destruct (rlookup r l); [|discriminate]. inversion H; subst. apply stays_same. reflexivity.
+  - inversion H; subst. apply stays_same. reflexivity.
+  - inversion H; subst. apply stays_same. reflexivity.
+  - destruct (nth_error (views s) i); [|discriminate]. inversion H; subst. apply stays_same. reflexivity.
+  - destruct (nth_error (views s) i); [|discriminate]. inversion H; subst. apply stays_same. reflexivity.
+  - destruct (nth_error (views s) i) as [v|]; [|discriminate].
+    destruct (phase_eqb (vlabel v) l); [|discriminate]. inversion H; subst. apply stays_same. reflexivity.
+  - inversion H; subst. apply stays_same. reflexivity.
+  - destruct (nth_error (saved s) k) as [d|]; [|discriminate]. unfold restore in H.
+    destruct (set_phases (empty_all s) (fun p => isSome (sd_rows d p)) false) as [s1|e] eqn:S1; [|discriminate].
+    simpl in H.
+    assert (St1 : stays s s1).
+    { apply (stays_trans_same s (empty_all s) s1).
+      - unfold empty_all. destruct (par s); reflexivity.
+      - eapply set_phases_stays; [apply empty_all_live; exact L|exact S1]. }
+    assert (Fin : views s' = views s1 /\ is_multi s' = is_multi s1 /\
+                  (is_multi s1 = true -> forall p, resolve (pset_now s') p = resolve (pset_now s1) p)).
+    { destruct (par s1) as [p c|r] eqn:P1.
+      - destruct (sd_single d) as [q|]; [|discriminate]. destruct (sd_rows d q); [|discriminate].
+        simpl in H. inversion H; subst. unfold is_multi; simpl. rewrite P1. repeat split. discriminate.
+      - destruct (sd_single d); [discriminate|]. simpl in H. inversion H; subst.
+        unfold is_multi, pset_now; simpl. rewrite P1. repeat split. }
+    destruct Fin as (Ev & Em & Er).
+    intros i v N Hin. destruct (St1 i v N Hin) as (v' & N' & Lb & Cases).
+    exists v'. rewrite Ev, Em. split; [exact N'|]. split; [exact Lb|].
+    destruct Cases as [X|[X|X]]; auto.
+    destruct (is_multi s1) eqn:M1; auto. right; right. rewrite Er; auto.
+Qed.
+
+(* ================= initial states ================= *)
+Lemma init_single_good n p v T P : length v = n -> good (init_single n p v T P) /\ live_inv (init_single n p v T P).
+Proof.
+  intros Lv. split; [split; [|split]|].
+  - unfold wf, init_single; simpl. split; [|split; [lia|split; [lia|constructor]]].
+    intros c Hc. simpl in Hc. destruct c; [exact Lv|lia].
+  - exact I.
+  - constructor.
+  - intros w [].
+Qed.
+
+(* ================= set_data never raises (stream with at least one phase) ================= *)
+Lemma move_rows_all_empty (r0 r : rmap) : forall ps h,
+  (forall p c, r0 p = Some c -> any_nz (cellv h c) = false) -> move_rows ps r0 h r = Ok h.
+Proof.
+  induction ps as [|a ps IH]; intros h He; simpl; [reflexivity|].
+  destruct (r0 a) as [c|] eqn:Ra; [|apply IH; exact He].
+  rewrite (He a c Ra). apply IH. exact He.
+Qed.
+
+Definition has_rows (s : st) : Prop :=
+  match par s with Multi r => pset_card (rset r) <> 0%nat | Single _ _ => True end.
+
+Lemma set_phases_empty_total s t :
+  wf s -> has_rows s ->
+  (forall p c, (match par s with Single _ c0 => c = c0 | Multi r => r p = Some c end) ->
+               cellv (heap s) c = vzero (nch s)) ->
+  exists s1, set_phases s t false = Ok s1 /\
+    (pset_card t = 1%nat -> exists c, par s1 = Single (hd Pl (pset_list t)) c) /\
+    (pset_card t <> 1%nat -> exists r, par s1 = Multi r).
+Proof.
+  intros W Hr Hz. unfold set_phases. rewrite Nat.add_0_r. unfold has_rows in Hr.
+  destruct (par s) as [p0 c|r0] eqn:Ps.
+  - destruct (Nat.eqb (pset_card t) 1) eqn:E.
+    + apply Nat.eqb_eq in E. unfold to_single. rewrite Ps. eexists. split; [reflexivity|].
+      split; [intros _; eexists; reflexivity|intros X; contradiction].
+    + apply Nat.eqb_neq in E. destruct (blank (nch s) t (heap s)) as [h1 r] eqn:B.
+      rewrite (Hz p0 c eq_refl). rewrite any_nz_vzero. eexists. split; [reflexivity|].
+      split; [intros X; contradiction|intros _; eexists; reflexivity].
+  - destruct (Nat.eqb (pset_card t) 1) eqn:E.
+    + apply Nat.eqb_eq in E. unfold to_single. rewrite Ps.
+      apply Nat.eqb_neq in Hr. rewrite Hr. eexists. split; [reflexivity|].
+      split; [intros _; eexists; reflexivity|intros X; contradiction].
+    + apply Nat.eqb_neq in E. destruct (pset_eqb t (rset r0)).
+      * exists s. split; [reflexivity|]. split; [intros X; contradiction|intros _; exists r0; exact Ps].
+      * destruct (blank (nch s) t (heap s)) as [h1 r] eqn:B.
+        destruct (blank_cells _ _ _ _ _ B) as (Cold & _ & _).
+        destruct W as (_ & Hp & _). rewrite Ps in Hp. destruct Hp as [Hr0 _].
+        rewrite (move_rows_all_empty r0 r all_phases h1).
+        -- simpl. eexists. split; [reflexivity|].
+           split; [intros X; contradiction|intros _; eexists; reflexivity].
+        -- intros p c Rp. rewrite Cold by (eapply Hr0; eauto). rewrite (Hz p c Rp). apply any_nz_vzero.
+Qed.
+
+Lemma restore_total s d :
+  good s -> In d (saved s) -> has_rows s -> exists s', restore s d = Ok s'.
+Proof.
+  intros (W & _ & Sp) Hin Hr.
+  assert (Hp : sd_proper d) by (rewrite Forall_forall in Sp; apply Sp; exact Hin).
+  destruct (empty_all_spec s W) as (W0 & _ & P0 & _ & Z0).
+  assert (Hr0 : has_rows (empty_all s)) by (unfold has_rows; rewrite P0; exact Hr).
+  assert (Z0' : forall p c, (match par (empty_all s) with Single _ c0 => c = c0 | Multi r => r p = Some c end) ->
+               cellv (heap (empty_all s)) c = vzero (nch (empty_all s))).
+  { intros p c X. rewrite P0 in X. rewrite (Z0 p c X). unfold empty_all. destruct (par s); reflexivity. }
+  destruct (set_phases_empty_total (empty_all s) (fun p => isSome (sd_rows d p)) W0 Hr0 Z0') as (s1 & S1 & One & Many).
+  unfold restore. rewrite S1. simpl. unfold sd_proper in Hp. destruct (sd_single d) as [q|] eqn:Sd.
+  - destruct (card_one_hd _ q Hp) as [Card Hd1]. destruct (One Card) as (c & P1). rewrite P1.
+    specialize (Hp q). rewrite phase_eqb_refl in Hp. destruct (sd_rows d q); [|discriminate].
+    simpl. eexists. reflexivity.
+  - destruct (Many Hp) as (r & P1). rewrite P1. simpl. eexists. reflexivity.
+Qed.
+
+(* ================= phases = <a covering target> never raises ================= *)
+Lemma any_nz_true_ex v : any_nz v = true -> exists j, ~ nthq v j == 0.
+Proof.
+  unfold any_nz, nthq. induction v as [|x v IH]; simpl; [discriminate|].
+  intros H. apply orb_true_iff in H. destruct H as [H|H].
+  - exists 0%nat. simpl. apply negb_true_iff in H. apply qzerob_false in H. exact H.
+  - destruct (IH H) as (j & Hj). exists (S j). exact Hj.
+Qed.
+
+Lemma rlookup_defined (r : rmap) p : resolve (rset r) p <> None -> rlookup r p <> None.
+Proof.
+  unfold rlookup. destruct (resolve (rset r) p) as [q|] eqn:R; [|congruence].
+  intros _. apply resolve_in in R. unfold rset in R. destruct (r q); [discriminate|discriminate].
+Qed.
+
+Lemma move_rows_total n L0 (r0 r : rmap) : forall ps h,
+  hwf n h -> rwf h r -> (forall p c, r p = Some c -> (L0 <= c)%nat) ->
+  (forall p c, r0 p = Some c -> (c < L0)%nat /\ (c < length h)%nat) ->
+  (forall p c, r0 p = Some c -> any_nz (cellv h c) = true -> rlookup r p <> None) ->
+  exists h2, move_rows ps r0 h r = Ok h2.
+Proof.
+  induction ps as [|a ps IH]; intros h Hh Hr Hnew Hold Hcov; simpl; [eexists; reflexivity|].
+  destruct (r0 a) as [c|] eqn:Ra; [|apply IH; auto].
+  destruct (any_nz (cellv h c)) eqn:NZ; [|apply IH; auto].
+  unfold add_into. destruct (rlookup r a) as [c'|] eqn:Lk; [|exfalso; eapply Hcov; eauto].
+  simpl. destruct (rlookup_some r a c' Lk) as (q & Rq & Rc).
+  destruct (Hold a c Ra) as [HcL Hclen].
+  assert (Hc'len : (c' < length h)%nat) by (destruct Hr as [Hr _]; eapply Hr; eauto).
+  assert (Hne : forall c0, (c0 < L0)%nat -> cellv (upd h c' (vadd (cellv h c') (cellv h c))) c0 = cellv h c0).
+  { intros c0 Hc0. apply cellv_upd_other. specialize (Hnew q c' Rc). lia. }
+  apply IH.
+  - apply hwf_upd; auto. rewrite vadd_length; [apply Hh; exact Hc'len|].
+    rewrite (Hh c Hclen). apply Hh. exact Hc'len.
+  - apply (rwf_len h); auto. rewrite upd_length. lia.
+  - exact Hnew.
+  - intros p c0 Hp. rewrite upd_length. exact (Hold p c0 Hp).
+  - intros p c0 Hp. rewrite Hne by (apply (Hold p c0 Hp)). apply Hcov. exact Hp.
+Qed.
+
+Lemma set_phases_total s t :
+  wf s -> has_rows s -> covers s t -> exists s', set_phases s t false = Ok s'.
+Proof.
+  intros W Hr Cv. unfold set_phases. rewrite Nat.add_0_r. unfold has_rows in Hr.
+  pose proof W as (Hh & Hp & _).
+  destruct (par s) as [p0 c|r0] eqn:Ps.
+  - destruct (Nat.eqb (pset_card t) 1).
+    + unfold to_single. rewrite Ps. eexists; reflexivity.
+    + destruct (blank (nch s) t (heap s)) as [h1 r] eqn:B.
+      destruct (blank_spec _ _ _ _ _ B) as (_ & Hset & _).
+      destruct (any_nz (cellv (heap s) c)) eqn:NZ; [|eexists; reflexivity].
+      destruct (rlookup r p0) as [c'|] eqn:Lk; [eexists; reflexivity|].
+      exfalso. apply (rlookup_defined r p0); [|exact Lk]. intros Rn.
+      destruct (any_nz_true_ex _ NZ) as (j & Hj). apply Hj.
+      pose proof (fl_single s p0 c p0 j Ps) as X. rewrite phase_eqb_refl in X. rewrite <- X.
+      apply Cv. rewrite (resolve_ext t (rset r) p0) by (intros x; symmetry; apply Hset). exact Rn.
+  - destruct (Nat.eqb (pset_card t) 1).
+    + unfold to_single. rewrite Ps. apply Nat.eqb_neq in Hr. rewrite Hr. eexists; reflexivity.
+    + destruct (pset_eqb t (rset r0)); [eexists; reflexivity|].
+      destruct (blank (nch s) t (heap s)) as [h1 r] eqn:B.
+      destruct (blank_spec _ _ _ _ _ B) as (_ & Hset & Hrange & Hinj).
+      destruct (blank_cells _ _ _ _ _ B) as (Cold & _ & Clen).
+      simpl in Hp. destruct Hp as [Hr0 _].
+      assert (Hh1 : hwf (nch s) h1) by (eapply blank_hwf; eauto).
+      assert (Hr1 : rwf h1 r) by (split; [intros p c' Hc'; apply (Hrange p c' Hc')|exact Hinj]).
+      destruct (move_rows_total (nch s) (length (heap s)) r0 r all_phases h1 Hh1 Hr1) as (h2 & M).
+      * intros p c Hc. apply (Hrange p c Hc).
+      * intros p c Hc. specialize (Hr0 p c Hc). lia.
+      * intros p c Rp NZ. apply rlookup_defined. intros Rn.
+        rewrite Cold in NZ by (eapply Hr0; eauto).
+        destruct (any_nz_true_ex _ NZ) as (j & Hj). apply Hj.
+        assert (X : fl s p j == nthq (cellv (heap s) c) j).
+        { rewrite (fl_multi s r0 p j Ps). unfold rowv. rewrite Rp. reflexivity. }
+        rewrite <- X. apply Cv. rewrite (resolve_ext t (rset r) p) by (intros x; symmetry; apply Hset). exact Rn.
+      * rewrite M. simpl. eexists; reflexivity.
 Qed.
